@@ -14,8 +14,12 @@ pub struct Pair<E: Ep> {
     /// net[i] = datagrams in flight toward side i (FIFO)
     pub net: [VecDeque<Vec<u8>>; 2],
     pub variant: Variant,
-    /// every datagram ever emitted, per sender
+    /// every datagram ever handed to the send callback, per sender (refused ones included)
     pub emitted: [Vec<Vec<u8>>; 2],
+    /// the environment refuses the first `fail_next[side]` datagrams of the next call on that
+    /// side (send error); `errors[side]` counts the errors the library reported back
+    pub fail_next: [u8; 2],
+    pub errors: [u32; 2],
     /// random draws made so far, per side
     pub draws: [u8; 2],
 }
@@ -31,6 +35,8 @@ impl<E: Ep> Pair<E> {
             net: [VecDeque::new(), VecDeque::new()],
             variant,
             emitted: [Vec::new(), Vec::new()],
+            fail_next: [0, 0],
+            errors: [0, 0],
             draws: [0, 0],
         }
     }
@@ -41,16 +47,22 @@ impl<E: Ep> Pair<E> {
             net: self.net.clone(),
             variant: self.variant,
             emitted: [Vec::new(), Vec::new()],
+            fail_next: [0, 0],
+            errors: [0, 0],
             draws: self.draws,
         }
     }
     /// Run `f` on endpoint `side`; emitted datagrams go onto the network.
     pub fn with<R>(&mut self, side: usize, f: impl FnOnce(&mut E, &mut Cb) -> R) -> R {
         let mut cb = Cb::with_draws(self.now, RANDOM[side], self.draws[side]);
+        cb.fail_sends = std::mem::take(&mut self.fail_next[side]);
         let r = f(&mut self.ep[side], &mut cb);
         self.draws[side] = self.draws[side].wrapping_add(cb.random_calls as u8);
-        for mut d in cb.out {
+        self.errors[side] += cb.errors;
+        for (d, _) in &cb.all {
             self.emitted[side].push(d.clone());
+        }
+        for mut d in cb.out {
             if self.variant == Variant::V6N && side == 0 && d == CONNECT6_TOKEN {
                 d = CONNECT6_PLAIN.to_vec();
             }
